@@ -14,6 +14,8 @@ Secondary lazy collection arguments: the same three measurements for `<list>.op(
 join (second collection), zip, zipLongest, concat, +, insertMany, replaceMany, defaultIfEmpty, selectMany (lazy selector
 result): the instrumented source feeds the SECOND argument, the receiver is a constant (possibly empty / an iterator)."""
 import itertools
+import os
+import zlib
 import json
 import signal
 import time
@@ -471,6 +473,60 @@ def sec_ref(sec, s, count):
 _STATE = {}
 
 
+# The consumption bound is a property of the operators, not of one engine configuration: every case runs on one member of
+# an engine FAMILY - the base engine, or an engine derived from it (`engine.copy(delta)` kept alive / `engine(text,
+# options=delta)`) whose options differ in what the iterator plumbing looks at: no limit and no memory quota (the limiter
+# and the quota checks are wrappers around every lazy stage), a very large limit, unconverted input (the source is not
+# wrapped by convert_input_data), iterable dictionaries, tuples / sets kept in the output.  Which member: from the text.
+ENGINE_DELTAS = [None, None, None,
+                 {'yaql.limitIterators': -1, 'yaql.memoryQuota': -1},
+                 {'yaql.convertInputData': False},
+                 {'yaql.iterableDicts': True},
+                 {'yaql.convertTuplesToLists': False, 'yaql.convertSetsToLists': False},
+                 {'yaql.limitIterators': 1000000, 'yaql.memoryQuota': -1},
+                 {'yaql.limitIterators': -1, 'yaql.convertInputData': False, 'yaql.iterableDicts': True}]
+MEMBER_HIST = {}
+
+
+def pick_member(text, case):
+    """-> (index into ENGINE_DELTAS, 'base' | 'copy' | 'percall')"""
+    h = zlib.crc32(text.encode('utf8', 'replace'))
+    i = h % len(ENGINE_DELTAS)
+    d = ENGINE_DELTAS[i]
+    if d is not None and d.get('yaql.convertInputData') is False and case['dict']:
+        i, d = 0, None          # (unconverted dictionaries are unhashable: another domain of values)
+    how = 'base' if d is None else ('copy' if (h >> 8) % 2 else 'percall')
+    return i, how
+
+
+def member_statement(eng, text, i, how):
+    """the statement of `text` asked from the member; the base engine has seen the text first half of the time"""
+    if how == 'base':
+        return eng(text), eng
+    d = ENGINE_DELTAS[i]
+    if zlib.crc32(text.encode('utf8', 'replace')) >> 9 & 1:
+        try:
+            eng(text)
+        except Exception:       # noqa
+            pass
+    if how == 'copy':
+        copies = _STATE.setdefault('copies', {})
+        if i not in copies:
+            copies[i] = eng.copy(d)
+        return copies[i](text), copies[i]
+    st = eng(text, options=d)
+    return st, st.engine
+
+
+def plain(v):
+    """the result with tuples / sets as lists (members whose finaliser keeps them)"""
+    if isinstance(v, (tuple, list, set, frozenset)):
+        return [plain(x) for x in v]
+    if isinstance(v, dict):
+        return {k: plain(x) for k, x in v.items()}
+    return v
+
+
 def setup_engine():
     if 'eng' not in _STATE:
         import yaql
@@ -515,11 +571,14 @@ def run_real_once(case, timeout=4):
     srcobj = Source(case['base'], case['delta'], case['dict'], n=case.get('len'))
     counter[0] = 0
     try:
-        st = eng(text)
+        mi, how = pick_member(text, case)
+        MEMBER_HIST[(mi, how)] = MEMBER_HIST.get((mi, how), 0) + 1
+        st, eng = member_statement(eng, text, mi, how)
         child = ctx.create_child_context()
         if case.get('sec'):
             from yaql.language import utils as yutils
-            child['src'] = yutils.convert_input_data(srcobj)      # what evaluate(data=..) does for `$`
+            # what evaluate(data=..) does for `$`
+            child['src'] = yutils.convert_input_data(srcobj) if eng.options.get('yaql.convertInputData', True) else srcobj
         signal.signal(signal.SIGALRM, c13._alarm)
         signal.setitimer(signal.ITIMER_REAL, timeout)
         try:
@@ -533,7 +592,7 @@ def run_real_once(case, timeout=4):
                 r = st.evaluate(data=place_data(place, srcobj), context=child)
         finally:
             signal.setitimer(signal.ITIMER_REAL, 0)
-        return dict(kind='ok', value=r, pulls=srcobj.pulls, apps=counter[0], text=text)
+        return dict(kind='ok', value=plain(r), pulls=srcobj.pulls, apps=counter[0], text=text)
     except c13.Timeout:
         return dict(kind='timeout', pulls=srcobj.pulls, apps=counter[0], text=text)
     except Exception as e:
@@ -755,6 +814,14 @@ def shrink(case, drv, kind):
     return case
 
 
+def answered(drv, cases, chunk):
+    """(case, model reply) pairs, the model asked chunk by chunk"""
+    for i in range(0, len(cases), chunk):
+        part = cases[i:i + chunk]
+        for pair in zip(part, ask(drv, part)):
+            yield pair
+
+
 def run(env, res):
     drv = env['driver']
     tier = env['tier']
@@ -772,14 +839,38 @@ def run(env, res):
         rp = json.load(open(env['replay']))
         cases = [case_from_json(rp['case'])]
     else:
-        per = 150 if tier == 'quick' else 4000
-        focuses = STREAM_OPS + TERMINAL_OPS
-        cases = [gen_case(rng, f) for f in focuses for _ in range(per)]
-        cases += [gen_sec_case(rng, f) for f in SEC_KINDS for _ in range(per)]
+        cases = None
+    focuses = STREAM_OPS + TERMINAL_OPS
+
+    def chunks():
+        """the quick tier's 150 cases per focus; thorough: then rounds of 50 more per focus (up to 4000), generated as they
+        are needed - the tier is sized by wall clock (every real run sits under a watchdog)"""
+        if cases is not None:
+            yield cases
+            return
+        yield [gen_case(rng, f) for f in focuses for _ in range(150)] + [gen_sec_case(rng, f) for f in SEC_KINDS for _ in range(150)]
+        if tier != 'quick':
+            for _ in range(77):
+                yield [gen_case(rng, f) for f in focuses for _ in range(50)] + [gen_sec_case(rng, f) for f in SEC_KINDS for _ in range(50)]
+
     t0 = time.time()
-    replies = ask(drv, cases)
+    budget = float(os.environ.get('VERIF_THOROUGH_S') or 480)
     hist = dict(second_arg={}, skipped=0, exact_pulls=0, exact_apps=0, run=0, real_err=0, by_focus={}, k={}, stages={}, slack_pulls={}, slack_apps={})
-    for case, mr in zip(cases, replies):
+    generated, last = 0, 0.0
+
+    def pairs():
+        nonlocal generated, last
+        for n, chunk in enumerate(chunks()):
+            if n and (time.time() - t0) + 1.2 * last > budget:
+                hist['stopped_by_wall_clock_budget_s'] = budget
+                return
+            t1 = time.time()
+            generated += len(chunk)
+            for pair in answered(drv, chunk, 950):
+                yield pair
+            last = time.time() - t1
+
+    for case, mr in pairs():
         f, info = evaluate_case(case, mr)
         text = case_text(case)
         ran = not info.get('skipped')
@@ -821,6 +912,9 @@ def run(env, res):
                 break
     if not env['replay']:
         srcobl.differential(env, res, 'C14')     # take_while / skip_while / skip / limit: source vs translation vs model
+    hist['cases_generated'] = generated
+    hist['engine_family_members'] = {'%s:%s' % (how, json.dumps(ENGINE_DELTAS[i], sort_keys=True) if ENGINE_DELTAS[i] else 'base options'): n
+                                     for (i, how), n in sorted(MEMBER_HIST.items())}
     res.extra['histogram'] = hist
     res.extra['correspondence_wall_s'] = round(time.time() - t0, 1)
     return res
